@@ -203,6 +203,17 @@ LogC05 == Backed => V_C05(st.log, st.end, FALSE, IF WDone THEN 0 ELSE 1, FALSE)[
 LogC06 == Backed => V_C06(st.log, st.end, Exp(st.cfg), FALSE)[1] # "viol"
 LogC07 == V_C07(st.log, st.cfg.buf)[1] # "viol"
 
+\* ---- refinement: this spec implements the counting abstraction STPCount.tla,
+\* whose inductive invariant Apalache proves for an unbounded source and an
+\* arbitrary buffer size (C07 beyond the constants enumerated here)
+CountAbs == INSTANCE STPCount WITH
+  buf <- st.cfg.buf, pos <- st.pos, nd <- Len(st.delivered),
+  qn <- Cardinality({i \in 1..Len(st.q) : st.q[i] # SENT}),
+  sent <- \E i \in 1..Len(st.q) : st.q[i] = SENT,
+  sd <- st.sd, wpc <- st.wpc, cpc <- st.cpc
+CountSpec == CountAbs!Spec
+CountIndInv == CountAbs!IndInv
+
 \* ---- emission of the labelled state graph (spec -> code transition cover) ----
 \* used as ACTION_CONSTRAINT: evaluated on every transition TLC generates
 Mover == IF st'.cpc # st.cpc \/ st'.wpc = st.wpc THEN "C" ELSE "W"
